@@ -264,6 +264,7 @@ pub fn run(ctx: &mut Ctx) -> R {
     let mut wire: Vec<u8> = Vec::new();
     let mut surviving: Vec<&Sent> = Vec::new();
     let mut garbage_all: Vec<Vec<u8>> = Vec::new();
+    let mut real_starts: Vec<usize> = Vec::new();
     let mut dropped = false;
     let mut desc = String::new();
     for (i, s) in sent.iter().enumerate() {
@@ -280,6 +281,7 @@ pub fn run(ctx: &mut Ctx) -> R {
             continue;
         }
         desc.push_str(&format!("F{i} "));
+        real_starts.push(wire.len());
         wire.extend_from_slice(&s.bytes);
         surviving.push(s);
     }
@@ -308,24 +310,26 @@ pub fn run(ctx: &mut Ctx) -> R {
                 next += p + 1;
             }
             None => {
-                // is it an accidentally checksum-valid frame somewhere on the wire?
+                // is it an accidentally checksum-valid frame somewhere on the wire — i.e. one that does
+                // not start where a real frame starts (e.g. a truncated copy of a header completed by the
+                // first byte of the frame that follows it)? Such a frame is on the wire; returning it is
+                // not fabrication, whatever it happens to contain.
                 let mut accidental = false;
                 for i in 0..wire.len().saturating_sub(1) {
-                    if wire[i] == 0xFF && (wire[i + 1] >> 1) == 0b1111100 {
+                    if wire[i] == 0xFF && (wire[i + 1] >> 1) == 0b1111100 && !real_starts.contains(&i) {
                         if let Ok(f) = refflac::parse_frame(&wire, i, None) {
                             if f.interleaved() == a.3 && f.rate == Some(a.0) && f.channels == a.1 {
-                                // a real frame at a real position is not accidental
                                 accidental = true;
                             }
                         }
                     }
                 }
                 if accidental {
-                    probe("c16_accidental_or_reordered_valid_frame");
-                    if sent.iter().any(|s| same(a, s)) {
-                        return viol("frame-fabricated", format!("returned frame #{k} is a written frame but out of order (wire: {desc})"));
-                    }
+                    probe("c16_accidental_valid_frame_in_garbage");
                     continue;
+                }
+                if sent.iter().any(|s| same(a, s)) {
+                    return viol("frame-fabricated", format!("returned frame #{k} is a written frame but out of order or duplicated (wire: {desc})"));
                 }
                 return viol(
                     "frame-fabricated",
